@@ -257,7 +257,7 @@ pub fn universe(r: &mut Rng, n_random: usize) -> Vec<Src> {
         i64::MAX as i128, i64::MAX as i128 + 1, u64::MAX as i128, u64::MAX as i128 + 1, 1 << 100, i128::MAX, -1, -2, -128, -129, -32768, -32769, -(1 << 31), -(1 << 31) - 1,
         i64::MIN as i128, i64::MIN as i128 - 1, -(1 << 100), i128::MIN];
     for _ in 0..n_random {
-        let width = 1 + r.below(127) as u32;
+        let width = 1 + r.below(126) as u32; // (1 << 127) - 1 would overflow
         let mag = (r.next() as i128) << 64 | r.next() as i128;
         let x = mag & ((1i128 << width) - 1);
         ints.push(if r.chance(1, 2) { x } else { -x });
